@@ -39,7 +39,10 @@ var (
 	base     baseT
 )
 
-func validAssertion(id string, t0 time.Time) string {
+func validAssertion(id string, t0 time.Time) string { return validAssertionFor(id, t0, I) }
+
+// validAssertionFor: the canonical valid assertion of id for a provider whose issuer is issuer.
+func validAssertionFor(id string, t0 time.Time, issuer string) string {
 	kid, s := "jk2", "A.k2/ES256"
 	switch id {
 	case B:
@@ -47,8 +50,8 @@ func validAssertion(id string, t0 time.Time) string {
 	case SVC:
 		kid, s = "sk1", "svc.k/RS256"
 	}
-	a := assertionT{iss: id, sub: id, aud: "[I]", iat: "-10", exp: "3600", kid: kid, signer: s}
-	return serialize(s, kid, a.payload(t0, I))
+	a := assertionT{iss: id, sub: id, aud: "[V]", iat: "-10", exp: "3600", kid: kid, signer: s}
+	return serialize(s, kid, a.payload(t0, issuer))
 }
 
 func redirectOf(id string) string {
@@ -58,9 +61,46 @@ func redirectOf(id string) string {
 	return cbA1
 }
 
-func buildBase(t *testing.T) {
-	baseOnce.Do(func() {
-		r := newRig(true)
+func buildBase(t *testing.T) { baseOnce.Do(func() { buildBaseFor(t, I, &base) }) }
+
+// epEnv: what an endpoint case is judged against — the verifier settings of the provider it is
+// sent to (issuer!) and the prepared storage state of that provider.
+type epEnv struct {
+	cfg  vcfg
+	base *baseT
+}
+
+var defaultEnv = epEnv{cfg: providerCfg, base: &base}
+
+var (
+	issBaseMu sync.Mutex
+	issBases  = map[string]*baseT{}
+)
+
+// envFor: the environment of a provider whose issuer is issuer (prepared state built once, with
+// providers of that issuer).
+func envFor(t *testing.T, issuer string) epEnv {
+	if issuer == I {
+		buildBase(t)
+		return defaultEnv
+	}
+	issBaseMu.Lock()
+	defer issBaseMu.Unlock()
+	b := issBases[issuer]
+	if b == nil {
+		b = &baseT{}
+		buildBaseFor(t, issuer, b)
+		issBases[issuer] = b
+	}
+	cfg := providerCfg
+	cfg.issuer = issuer
+	return epEnv{cfg: cfg, base: b}
+}
+
+func buildBaseFor(t *testing.T, issuer string, basep *baseT) {
+	{
+		base := basep // (shadows the package variable inside this function)
+		r := newRigIss(true, issuer)
 		base.art = map[string]*artifactsT{}
 		fail := func(f string, args ...any) { base.err = fmt.Sprintf(f, args...) }
 		// every request that carries an assertion goes to a provider of its own (continuing on the
@@ -68,7 +108,7 @@ func buildBase(t *testing.T) {
 		// history-endpoint examines
 		fresh := func() {
 			st := r.Core.St
-			r = newRig(true)
+			r = newRigIss(true, issuer)
 			r.Core.Reset(st)
 		}
 		pan := engine.Bubble(t, 0, func() {
@@ -85,7 +125,7 @@ func buildBase(t *testing.T) {
 				}
 				fresh()
 				tr := r.Token(0, url.Values{"grant_type": {"authorization_code"}, "code": {code1}, "redirect_uri": {redirectOf(id)},
-					"client_assertion": {validAssertion(id, engine.Epoch)}, "client_assertion_type": {atypeJWT}}, "")
+					"client_assertion": {validAssertionFor(id, engine.Epoch, issuer)}, "client_assertion_type": {atypeJWT}}, "")
 				a.access, a.refresh = tr.Str("access_token"), tr.Str("refresh_token")
 				if tr.Status != 200 || a.access == "" || a.refresh == "" {
 					fail("base: code exchange for %s: %d %s", id, tr.Status, tr.Body)
@@ -103,7 +143,7 @@ func buildBase(t *testing.T) {
 				}
 				fresh()
 				da := r.Do(0, rig.Req("POST", "/device_authorization", url.Values{"scope": {"openid"},
-					"client_assertion": {validAssertion(id, engine.Epoch)}, "client_assertion_type": {atypeJWT}}, nil))
+					"client_assertion": {validAssertionFor(id, engine.Epoch, issuer)}, "client_assertion_type": {atypeJWT}}, nil))
 				a.deviceCode = da.Str("device_code")
 				if da.Status != 200 || a.deviceCode == "" {
 					fail("base: device authorization for %s: %d %s", id, da.Status, da.Body)
@@ -124,7 +164,7 @@ func buildBase(t *testing.T) {
 		if pan != "" {
 			base.err = "base: panic: " + pan
 		}
-	})
+	}
 }
 
 var endpointSpace = engine.Space{
@@ -196,7 +236,13 @@ func endpointCase(t *testing.T, r *rig.Rig, opName, router string, a assertionT,
 // laterRequest: the provider instance has served requests before (part "history-endpoint");
 // then acting without a fresh key lookup is not objected to.
 func endpointCaseW(t *testing.T, r *rig.Rig, opName, router string, a assertionT, tok, atype, cid string, now time.Time, helperRule string, laterRequest bool) (_ engine.Result, expect want) {
-	expect, rule := judge(a, tok, eT0, now, providerCfg)
+	return endpointCaseX(t, r, defaultEnv, opName, router, a, tok, atype, cid, now, helperRule, laterRequest)
+}
+
+// endpointCaseX: r is a provider of issuer env.cfg.issuer; env.base its prepared state.
+func endpointCaseX(t *testing.T, r *rig.Rig, env epEnv, opName, router string, a assertionT, tok, atype, cid string, now time.Time, helperRule string, laterRequest bool) (_ engine.Result, expect want) {
+	base := env.base // (shadows the package variable inside this function)
+	expect, rule := judge(a, tok, eT0, now, env.cfg)
 	if helperRule != "" {
 		rule = helperRule + ":" + rule
 	}
@@ -238,6 +284,9 @@ func endpointCaseW(t *testing.T, r *rig.Rig, opName, router string, a assertionT
 			}
 		case "web":
 			form.Set("client_id", "web")
+		case "absent":
+		default: // any other client id, literally
+			form.Set("client_id", cid)
 		}
 	}
 	ri := 0
@@ -348,7 +397,7 @@ func endpointCaseW(t *testing.T, r *rig.Rig, opName, router string, a assertionT
 	}
 	// ---- completeness: the canonical valid assertion of an eligible client is honoured
 	// (with a tolerant subject check and sub != iss the operation itself is left open)
-	if expect == mustAccept && atype == "jwt-bearer" && cid != "web" && eligible(opName, a.iss) && a.sub == a.iss {
+	if expect == mustAccept && atype == "jwt-bearer" && (cid == "absent" || cid == "=iss") && eligible(opName, a.iss) && a.sub == a.iss {
 		if helperRule == "" {
 			rule = "valid-assertion-of-eligible-client"
 		}
